@@ -154,6 +154,11 @@ def run_check(prop, tier="quick", seed=0, replay=None):
         broken += [f"factgen: {b}" for b in fg_broken]
     except Exception as e:  # factgen itself failing is a broken tie
         broken.append(f"factgen failed: {e}")
+    try:
+        from . import transgen
+        broken += [f"transgen: {b}" for b in transgen.regenerate()]
+    except Exception as e:
+        broken.append(f"transgen failed: {e}")
     if hasattr(prop, "pregen"):
         try:
             broken += prop.pregen()
